@@ -64,9 +64,53 @@ def hostile_names(rng, cd):
     return cd, None
 
 
+def gen_widegate(rng):
+    """One gate with 2..70 operands: a few primary inputs directly, the rest non-controlling fillers (constants and
+    tautology / contradiction gates), so that each input alone decides the gate under some valuation."""
+    t = rng.choice(G.GATESN)
+    w = rng.choice([rng.randint(2, 16), 16, 17, 18, 29, 30, 31, 32, 33, 40, 48, 63, 64, 65, rng.randint(17, 70)])
+    k = min(w, rng.randint(4, 10))
+    cd = G.new_cdict("wide")
+    ins = [f"i{j}" for j in range(k)]
+    for n in ins:
+        cd["nodes"].append([n, "input", False])
+    ops = list(ins)
+    neutral = "1" if t in ("and", "nand") else "0"
+    j = 0
+    while len(ops) < w:
+        r = rng.random()
+        n = f"f{j}"
+        j += 1
+        if r < 0.4:
+            cd["nodes"].append([n, neutral, False])
+        elif r < 0.9:
+            a = rng.choice(ins)
+            cd["nodes"].append([n + "n", "not", False])
+            cd["edges"].append([a, n + "n"])
+            cd["nodes"].append([n, "or" if neutral == "1" else "and", False])
+            cd["edges"] += [[a, n], [n + "n", n]]
+        else:
+            a, b = rng.choice(ins), rng.choice(ins)
+            cd["nodes"].append([n, rng.choice(["or", "and", "xor"]) if a != b else "buf", False])
+            cd["edges"] += [[a, n]] + ([[b, n]] if a != b else [])
+        ops.append(n)
+    cd["nodes"].append(["g", t, True])
+    for o in ops:
+        cd["edges"].append([o, "g"])
+    cd["nodes"].append(["gn", "not", True])
+    cd["edges"].append(["g", "gn"])
+    if rng.random() < 0.5:
+        cd = G.shuffle_nodes(rng, cd)
+    nodes = [n for n, _, _ in cd["nodes"]]
+    assumps = [{"g": rng.random() < 0.5}, {"gn": True, rng.choice(ins): False}, {n: rng.random() < 0.5 for n in rng.sample(nodes, min(4, len(nodes)))}, {}]
+    return {"c": cd, "kind": "large", "widegate": [t, w], "assumps": assumps, "probe": ["g", "gn"] + rng.sample(nodes, min(4, len(nodes))), "via": "graph"}
+
+
 def gen(rng, ctx):
     big = ctx.tier == "thorough"
     r = rng.random()
+    if rng.random() < 0.025:
+        return gen_widegate(rng)
     if r < (0.06 if big else 0.03):
         libs = LIBS_THOROUGH if big else LIBS_QUICK
         return {"lib": rng.choice(libs), "vecs": [rng.getrandbits(64) for _ in range(3 if not big else 6)], "seed": rng.getrandbits(32)}
@@ -195,6 +239,10 @@ def check_large(case, ctx):
     c = G.build(cg, case["c"], "graph")
     net = Net.of(c)
     ctx.count("class:large")
+    if case.get("widegate"):
+        ctx.count("class:widegate")
+        if case["widegate"][1] >= 30:
+            ctx.count("widegate:30_or_more_operands")
     G.gate_arity_table(case["c"], ctx.table)
     free = net.free()
     if len(free) > 13 or net.has_x():
@@ -409,7 +457,7 @@ def gates(counters, table, tier):
         for a in ("1", "2", "3", "4+"):
             if table.get(f"{t}/{a}", 0) < 3:
                 out.append(f"gate {t} at fan-in {a} seen {table.get(f'{t}/{a}', 0)} times")
-    for k in ("shared_parity_operands", "class:selfloop", "requery_after_set_type", "class:cyclic", "class:pins", "answer:unsat", "answer:sat", "cmp:cnf_exhaustive", "cnf_with_aux", "hostile:xor_a_b", "hostile:xor_inv", "class:lib", "class:large", "cnf_large_nodes_checked"):
+    for k in ("shared_parity_operands", "class:selfloop", "requery_after_set_type", "class:cyclic", "class:pins", "answer:unsat", "answer:sat", "cmp:cnf_exhaustive", "cnf_with_aux", "hostile:xor_a_b", "hostile:xor_inv", "class:lib", "class:large", "cnf_large_nodes_checked", "class:widegate", "widegate:30_or_more_operands"):
         if counters.get(k, 0) < 3:
             out.append(f"{k} seen {counters.get(k, 0)} times")
     return out
